@@ -1451,7 +1451,10 @@ impl AstNode for VariantCase {
     fn parse(pair: Pair<Rule>) -> Result<Self, Error> {
         let case = match pair.as_rule() {
             Rule::variant_case_struct => Self::struct_case_parse(pair),
-            Rule::variant_case_tuple => todo!("parse variant case tuple"),
+            Rule::variant_case_tuple => Err(Error::custom(
+                "tuple variant cases are not supported yet",
+                pair.as_span(),
+            )),
             Rule::variant_case_unit => Self::unit_case_parse(pair),
             x => unreachable!("Unexpected rule in datum_variant: {:?}", x),
         }?;
